@@ -6,14 +6,14 @@ Interleavings: the step-level model Fv/Chan/SpmcB.lean and its atomic-action tie
 import importlib, json, os, sys
 sys.path.insert(0, os.path.dirname(__file__))
 import chanlib
-from vlib import VERIF
+from vlib import VERIF, CHAN_RUSTFLAGS
 
 THEOREMS = chanlib.names("C07")
 
 def run(ctx):
     ctx.lean_obligations("Fv.Props.C07", THEOREMS)
     drv = ctx.lean_exe("fvdrv_chan")
-    h = ctx.cargo_build("chan", "chanh", rustflags="--cfg loom")
+    h = ctx.cargo_build("chan", "chanh", rustflags=CHAN_RUSTFLAGS)
     ctx.assumptions += [a for a in chanlib.ASSUMPTIONS if a not in ctx.assumptions]
     ctx.assumptions.append("spmc: concurrent histories are judged by the harness monitors and by the step-level model (SpmcB) only; fvdrv_chan replays the sequential cases")
     ef = os.path.join(VERIF, "findings", "SpmcB.entries.json")
